@@ -375,6 +375,12 @@ class CallMixin(ExprMixin):
         if t.startswith("classval:"):
             rel, _, cn = t[9:].rpartition(":")
             return ClassVal(self.P.by_relpath[rel].classes[cn])
+        if t.startswith("excany:"):
+            from .interp import EXC_REPRESENTATIVES
+            base = self.class_by_name(t[7:])
+            cands = [PyClass(k) for k in EXC_REPRESENTATIVES if self.is_subclass(PyClass(k), base)]
+            extra = [self.class_by_name(n) for n in ("StreamProtocolParseError",) if self.is_subclass(self.class_by_name(n), base)]
+            return self.make_exc_any(st, extra + cands)
         if t.startswith("exc:"):
             cls = self.class_by_name(t[4:])
             return self.make_exc(st, cls, ())
@@ -700,6 +706,17 @@ class CallMixin(ExprMixin):
         sctx = self.spec_ctx(fi, frame, (old, frame), ghosts)
         for p in c.modifies:
             self.havoc_path(st, sctx, p)
+        if fi.is_async and "suspensions" in st.heap[st.ghost] and "ghost.suspensions" not in c.modifies:
+            # engine-maintained counter of suspension points: an awaited callee under contract may suspend any number of
+            # times unless its contract says it does not suspend in this pre-state
+            su = c.env.get("suspends_unless")
+            if su is None or not self.prover(old)(self.eval_clause(Clause("suspends_unless", su), old, self.spec_ctx(fi, frame, None, ghosts))):
+                k = smt.fresh("suspensions", smt.I)
+                st.assume(k >= old.heap[old.ghost]["suspensions"])
+                st.heap[st.ghost]["suspensions"] = k
+        for g in c.env.get("ghost_on_return", {}):
+            # such a ghost field is updated by the return event only (never on an exceptional exit): no frame havoc for it
+            st.heap[st.ghost][g] = old.heap[old.ghost][g]
         results: list[tuple[State, Any]] = []
         live_before = self.feasible(st)
         # exceptional outcomes
@@ -721,14 +738,17 @@ class CallMixin(ExprMixin):
                     results.append((s2, Raise(exc)))
         # normal outcome
         if c.ensures or "$noreturn" not in c.env:
-            res = self.make_result(st, c, sctx)
-            nctx = self.spec_ctx(fi, frame, (old, frame), {**ghosts, "result": res})
-            self.ghost_on_return(st, c, nctx)
-            for cl in c.ensures:
-                st.assume(self.eval_clause(cl, st, nctx))
-            if self.feasible(st):
-                self.apply_call_hints(st, ctx, fi, old, res, line)
-                results.append((st, res))
+            alts = c.result.strip()[6:].split("|") if c.result.strip().startswith("union:") else [None]
+            for ai, alt in enumerate(alts):
+                sN = st if ai == len(alts) - 1 else st.clone()
+                res = self.make_result(sN, c, sctx) if alt is None else self.make_symbolic(sN, alt.strip(), "ret")
+                nctx = self.spec_ctx(fi, frame, (old, frame), {**ghosts, "result": res})
+                self.ghost_on_return(sN, c, nctx)
+                for cl in c.ensures:
+                    sN.assume(self.eval_clause(cl, sN, nctx))
+                if self.feasible(sN):
+                    self.apply_call_hints(sN, ctx, fi, old, res, line)
+                    results.append((sN, res))
         if may_suspend:
             # other tasks ran while the callee was suspended: their effects (the caller's rely) are visible afterwards
             for s9, _r in results:
